@@ -2554,7 +2554,21 @@ def rule_special_trailing_trim(col, facts):
         if cn != "cursor":
             continue
         n += 1
-        ok = any(c2 == "peek" and f.dominates(b2, bb) and any(c3.startswith("starts_with") and f.dominates(b3, b2) for b3, c3 in calls) for b2, c2 in calls)
+        sw = {b3 for b3, c3 in calls if c3.startswith("starts_with")}
+        def after_match(blk):
+            # every path from the entry to `blk` passes through one of the starts_with calls (the cased and the
+            # uncased comparison may sit in two arms, neither of which dominates)
+            seen, todo = set(), [0]
+            while todo:
+                x = todo.pop()
+                if x in seen or x in sw:
+                    continue
+                seen.add(x)
+                if x == blk:
+                    return False
+                todo.extend(f.succ()[x])
+            return bool(sw)
+        ok = any(c2 == "peek" and f.dominates(b2, bb) and after_match(b2) for b2, c2 in calls)
         col.check(R, "is_special_eq:cursor#%d" % n, ok, "the matched length is read (cursor()) without the trailing peek() of the special iterator after the match: separators after the last letter are not consumed", f.loc(f.blocks[bb]["ts"]))
     col.floor(R, "cursor reads after a special match", n, 1)
 
